@@ -395,6 +395,14 @@ func (c *Ctx) inject(site, n int, f *Fault) error {
 	case "panic-int":
 		c.Injected = append(c.Injected, Injected{Seq: len(c.Events) - 1, Site: site, N: n, Kind: f.Kind, Msg: strconv.Itoa(1000*site + n)})
 		panic(1000*site + n)
+	case "panic-runtime":
+		// a fault of the Go runtime inside the block (index out of range): the
+		// commonest panic of real code blocks, a runtime.Error
+		var xs []int
+		idx := 1000*site + n
+		c.Injected = append(c.Injected, Injected{Seq: len(c.Events) - 1, Site: site, N: n, Kind: f.Kind, Msg: fmt.Sprintf("runtime error: index out of range [%d] with length 0", idx)})
+		_ = xs[idx]
+		panic("unreachable")
 	case "panic-stringer":
 		v := GoodStringer{fmt.Sprintf("PG%d.%d", site, n)}
 		c.Injected = append(c.Injected, Injected{Seq: len(c.Events) - 1, Site: site, N: n, Kind: f.Kind, Msg: fmt.Sprintf("%v", v)})
